@@ -1402,8 +1402,54 @@ def _inline_foreign_helpers(P, anchors):
         if _stores(body):
             continue            # helper locals would need renaming: keep it simple
         cands[name] = (ci, fn, body)
-    if not cands:
+    # ... and small foreign mutators that answer True/False, used as the test of an `if`: `if X.m(a): B else: E` becomes the helper's statements with B or E
+    # put where it returns True or False
+    def outcome_tree(body):
+        pre = []
+        for i, st in enumerate(body):
+            if isinstance(st, ast.Return):
+                if isinstance(st.value, ast.Constant) and isinstance(st.value.value, bool):
+                    return ("seq", pre, ("ret", st.value.value))
+                return None
+            if isinstance(st, ast.If):
+                a_ = outcome_tree(st.body + body[i + 1:])
+                b_ = outcome_tree(st.orelse + body[i + 1:])
+                if a_ is None or b_ is None:
+                    return None
+                return ("seq", pre, ("if", st.test, a_, b_))
+            if not isinstance(st, (ast.Assign, ast.AugAssign, ast.Expr, ast.Pass)):
+                return None
+            pre.append(st)
+        return None
+    bool_cands = {}
+    for name, lst in defs.items():
+        if len(lst) != 1 or name in anchors or name.startswith("__") or name in cands:
+            continue
+        ci, fn = lst[0]
+        if fn.decorator_list or fn.args.vararg or fn.args.kwarg or fn.args.kwonlyargs or fn.args.defaults:
+            continue
+        body = [s_ for s_ in fn.body if not (isinstance(s_, ast.Expr) and isinstance(s_.value, ast.Constant))]
+        if any(isinstance(x, (ast.Yield, ast.YieldFrom, ast.For, ast.While, ast.Try, ast.With, ast.Lambda, ast.FunctionDef)) for s_ in body for x in ast.walk(s_)) or _stores(body):
+            continue
+        if not any(isinstance(x, (ast.Assign, ast.AugAssign)) for s_ in body for x in ast.walk(s_)):
+            continue            # a pure predicate: nothing to expose
+        t_ = outcome_tree(body)
+        if t_ is not None:
+            bool_cands[name] = (ci, fn, t_)
+    if not cands and not bool_cands:
         return
+
+    def render(tree, mapping, then_, else_, st):
+        kind, pre, nxt = tree
+        out = [_loc(_NameSubst(mapping).visit(copy.deepcopy(x)), st) for x in pre]
+        if nxt[0] == "ret":
+            out += copy.deepcopy(then_ if nxt[1] else else_) or []
+        else:
+            _, test, a_, b_ = nxt
+            node = ast.If(test=_NameSubst(mapping).visit(copy.deepcopy(test)), body=render(a_, mapping, then_, else_, st) or [ast.Pass()],
+                          orelse=render(b_, mapping, then_, else_, st))
+            out.append(_loc(node, st))
+        return out
 
     def rewrite(body):
         out = []
@@ -1413,6 +1459,20 @@ def _inline_foreign_helpers(P, anchors):
                 if isinstance(v, list) and v and isinstance(v[0], ast.stmt):
                     setattr(st, f, rewrite(v))
             new = None
+            if isinstance(st, ast.If):
+                t_, neg_ = st.test, False
+                if isinstance(t_, ast.UnaryOp) and isinstance(t_.op, ast.Not):
+                    t_, neg_ = t_.operand, True
+                if isinstance(t_, ast.Call) and isinstance(t_.func, ast.Attribute) and t_.func.attr in bool_cands and not t_.keywords:
+                    recv = t_.func.value
+                    ci, h, tree = bool_cands[t_.func.attr]
+                    params = [a.arg for a in h.args.args][1:]
+                    if not (isinstance(recv, ast.Name) and recv.id == "self") and not any(isinstance(x, ast.Call) for x in ast.walk(recv)) and len(params) == len(t_.args) \
+                            and all(isinstance(a, (ast.Constant, ast.Name, ast.Attribute)) for a in t_.args):
+                        mapping = dict(zip(params, t_.args))
+                        mapping["self"] = recv
+                        then_, else_ = (st.orelse, st.body) if neg_ else (st.body, st.orelse)
+                        new = render(tree, mapping, then_, else_, st)
             if isinstance(st, ast.Expr) and isinstance(st.value, ast.Call) and isinstance(st.value.func, ast.Attribute) and st.value.func.attr in cands:
                 call = st.value
                 recv = call.func.value
@@ -1442,9 +1502,9 @@ def _inline_foreign_helpers(P, anchors):
     still = set()
     for m in P.modules.values():
         for x in ast.walk(m.tree):
-            if isinstance(x, ast.Attribute) and x.attr in cands:
+            if isinstance(x, ast.Attribute) and (x.attr in cands or x.attr in bool_cands):
                 still.add(x.attr)
-    for name, (ci, fn, body) in cands.items():
+    for name, (ci, fn, body) in list(cands.items()) + list(bool_cands.items()):
         if name not in still and name in ci.methods:
             ci.node.body.remove(fn)
             del ci.methods[name]
